@@ -103,6 +103,77 @@ Fixpoint conc_run (q : pq) (ops : list fop) : list tree :=
       end
   end.
 
+(* ---------- fn 4: the same with position save / restore as operations of their own (a restore may come any number of
+   operations after the save, e.g. after further packets were enqueued); reference = a tape (bytes since the last
+   discard, cursor, saved cursor).  A discard or reset invalidates the saved cursor (the harness does not restore then). *)
+Inductive top := TOp (f : fop) | TSave | TRestore.
+Record tstate := { ts_all : bytes; ts_cur : Z; ts_saved : option Z }.
+
+Fixpoint tape_run (s : tstate) (ops : list top) : list tree :=
+  match ops with
+  | [] => []
+  | TSave :: r => TL [] :: tape_run {| ts_all := ts_all s; ts_cur := ts_cur s; ts_saved := Some (ts_cur s) |} r
+  | TRestore :: r =>
+      TL [] :: tape_run {| ts_all := ts_all s; ts_cur := match ts_saved s with Some c => c | None => ts_cur s end; ts_saved := ts_saved s |} r
+  | TOp f :: r =>
+    let avail := zdrop (ts_cur s) (ts_all s) in
+    let stay := s in
+    let adv n := {| ts_all := ts_all s; ts_cur := ts_cur s + n; ts_saved := ts_saved s |} in
+    let toend := {| ts_all := ts_all s; ts_cur := zlen (ts_all s); ts_saved := ts_saved s |} in
+    match f with
+    | FAdd d => TL [] :: tape_run {| ts_all := ts_all s ++ d; ts_cur := ts_cur s; ts_saved := ts_saved s |} r
+    | FBytes n =>
+        if n =? 0 then TL [TI 0; TB []] :: tape_run stay r
+        else if n <? 0 then TL [TI 2; TB []] :: tape_run stay r
+        else if n <=? zlen avail then TL [TI 0; TB (ztake n avail)] :: tape_run (adv n) r
+        else TL [TI 1; TB avail] :: tape_run toend r
+    | FLe w =>
+        if w <? 0 then TL [TI 2; TI 0] :: tape_run stay r
+        else if w <=? zlen avail then TL [TI 0; TI (le_of_bytes (ztake w avail))] :: tape_run (adv w) r
+        else TL [TI 1; TI 0] :: tape_run toend r
+    | FDiscard => TL [] :: tape_run {| ts_all := avail; ts_cur := 0; ts_saved := None |} r
+    | FReset => TL [] :: tape_run {| ts_all := []; ts_cur := 0; ts_saved := None |} r
+    | FTry n =>
+        if n =? 0 then TL [TI 0; TB []] :: tape_run stay r
+        else if n <? 0 then TL [TI 2; TB []] :: tape_run stay r
+        else if n <=? zlen avail then TL [TI 0; TB (ztake n avail)] :: tape_run (adv n) r
+        else TL [TI 1; TB avail] :: tape_run stay r
+    end
+  end.
+
+Definition top_of_tree (t : tree) : top :=
+  match t with
+  | TL [TI 9] => TSave
+  | TL [TI 10] => TRestore
+  | _ => TOp (fop_of_tree t)
+  end.
+
+(* the same history on the concrete model; the saved position is the (packet index, data index) pair of Position() *)
+Fixpoint conc_run4 (q : pq) (saved : option (Z * Z)) (ops : list top) : list tree :=
+  match ops with
+  | [] => []
+  | TSave :: r => TL [] :: conc_run4 q (Some (ip q, id q)) r
+  | TRestore :: r => TL [] :: conc_run4 (match saved with Some (a, b) => set_position a b q | None => q end) saved r
+  | TOp f :: r =>
+    match conc_run q [f] with
+    | [o] =>
+      let q' := match f with
+                | FAdd d => Some (add_packet {| plen := 8 + zlen d; pdata := d |} false q)
+                | FBytes n => match qbytes n q with ROk _ q' | RNeb _ q' | RErr q' => Some q' | RPanic => None end
+                | FLe w => match qle w q with ROk _ q' | RNeb _ q' | RErr q' => Some q' | RPanic => None end
+                | FDiscard => discard q
+                | FReset => Some (reset q)
+                | FTry n => match qbytes n q with
+                            | ROk _ q' => Some q' | RNeb _ q' => Some (set_position (ip q) (id q) q') | RErr q' => Some q' | RPanic => None end
+                end in
+      match q' with
+      | Some q1 => o :: conc_run4 q1 (match f with FDiscard | FReset => None | _ => saved end) r
+      | None => [o]
+      end
+    | l => l
+    end
+  end.
+
 (* tx-style history (fn 3): writes at constant packet size from an empty queue, then rewind and one read *)
 Definition tx_layout_ok (ps : Z) (total : Z) (q : pq) : bool :=
   let body := ps - 8 in
@@ -169,6 +240,7 @@ Definition run (fn : Z) (i : tree) : tree :=
   match fn with
   | 1 => TL (run_ops empty_pq (map op_of_tree (t_list i)))
   | 2 => TL (conc_run empty_pq (map fop_of_tree (t_list i)))
+  | 4 => TL (conc_run4 empty_pq None (map top_of_tree (t_list i)))
   | 3 =>
       let ws := writes_of_tree (t_nth 0 i) in
       let n := t_int (t_nth 1 i) in
@@ -188,6 +260,7 @@ Definition spec (fn : Z) (i o : tree) : bool :=
   match fn with
   | 1 => true
   | 2 => tree_eqb o (TL (fifo_run [] (map fop_of_tree (t_list i))))
+  | 4 => tree_eqb o (TL (tape_run {| ts_all := []; ts_cur := 0; ts_saved := None |} (map top_of_tree (t_list i))))
   | 3 =>
       let ws := writes_of_tree (t_nth 0 i) in
       let n := t_int (t_nth 1 i) in
